@@ -35,6 +35,7 @@ def run(tier, seed, replay=None):
     n_sched_blind = 0
     for i in range(n):
         kind = rng.choice(["reshape", "reshape", "reshape-op", "permute", "permute", "permute-op", "qtt", "qtt-roundtrip"])
+        if i < 14: kind = "reshape"            # the engineered reshape cases below
         cplx = rng.random() < 0.3
         dt = torch.complex128 if cplx else torch.float64
         dist[kind + (":complex" if cplx else "")] = dist.get(kind + (":complex" if cplx else ""), 0) + 1
@@ -42,13 +43,24 @@ def run(tier, seed, replay=None):
             if kind == "reshape":
                 total = rng.choice([6, 8, 12, 16, 24, 30, 36, 48, 64])
                 Nin, Nout = factorisations(rng, total), factorisations(rng, total)
+                eng = None
+                if i < 12:                  # engineered: several trailing (or leading) singleton modes removed at once, complex data
+                    eng = "singletons"; cplx = True; dt = torch.complex128
+                    Nin, Nout = rng.choice([([2, 3, 1, 1], [3, 2]), ([2, 3, 1, 1], [6]), ([4, 1, 1, 1], [2, 2, 1]), ([3, 4, 1, 1, 1], [4, 3]), ([1, 1, 2, 3], [3, 2]),
+                                            ([2, 1, 1, 3, 1, 1], [2, 3]), ([6, 1, 1], [2, 3]), ([2, 2, 1, 1], [4, 1])])
                 x = solverkit.rand_tt_float(rng, Nin, solverkit.ranks(rng, len(Nin), 3), dt, cplx=cplx)
                 eps = rng.choice([1e-16, 1e-14, 1e-10, 1e-6, 1e-3, 1e-1])
+                if i in (12, 13):           # engineered: a split inside a mode that carries a rank above 100
+                    eng = "high-rank split"; cplx = False; dt = torch.float64
+                    Nin, Nout = [([120, 110], [110, 120]), ([16384], [128, 128])][i - 12]
+                    torch.manual_seed(rng.randrange(1 << 30))
+                    x = torchtt.TT(torch.randn(Nin, dtype=dt)); eps = 1e-12
+                if eng: dist["reshape engineered: " + eng] = dist.get("reshape engineered: " + eng, 0) + 1
                 desc = {"op": kind, "N_in": Nin, "N_out": Nout, "eps": eps, "dtype": str(dt), "R": [int(r) for r in x.R]}
                 snap = history.Snap(x)
                 y = torchtt.reshape(x, Nout, eps)
                 ref = x.full().reshape(Nout); got_shape, want_shape = [int(v) for v in y.N], Nout
-                if len(coq_cases) < (80 if tier == "quick" else 600):
+                if len(coq_cases) < (80 if tier == "quick" else 600) and max(Nin + Nout) <= 2000:
                     coq_cases.append("match reshape_modes %s %s with Some l => l | None => [] end" % (coqrun.nlist(Nin), coqrun.nlist(Nout))); coq_want.append(got_shape)
             elif kind == "reshape-op":
                 total = rng.choice([4, 6, 8, 12, 16])
